@@ -117,6 +117,15 @@ def plan(tier, seed):
         cases.append({'kind': 'invalid', 'seed': base + 9000 + i, 'streams': 6 if q else 12})
     for i in range(48 if q else 600):
         cases.append({'kind': 'usbsrc', 'seed': base + 13000 + i, 'rounds': 20 if q else 40})
+    for i in range(32 if q else 640):
+        cases.append({'kind': 'sources', 'seed': base + 23000 + i, 'streams': 5 if q else 8,
+                      'all2': 300 if q else 1200, 'census': i == 0})
+    for i in range(32 if q else 960):
+        cases.append({'kind': 'isolation', 'seed': base + 29000 + i, 'rounds': 200 if q else 300})
+    for kind in CLIENT_KINDS:
+        for i in range(2 if q else 24):
+            cases.append({'kind': 'client', 'transport': kind, 'seed': base + 31000 + i,
+                          'streams': 4 if q else 6, 'splits': 8 if q else 16})
     nsrv = 2 if q else 24
     for kind in ('tcp', 'unix', 'ws'):
         for i in range(nsrv):
@@ -254,7 +263,7 @@ class Steps:
             return f'{self.framer}/{clause}'
         if i >= len(self.s.types):
             return f'{self.framer}/{clause}/past-last-packet'
-        return f'{self.framer}/{clause}/{H.NAME[self.s.types[i]]}/{H.len_class(self.s.desc[i][1])}'
+        return f'{self.framer}/{clause}/{self.s.desc[i][0]}/{H.len_class(self.s.desc[i][1])}'
 
     def ctx(self):
         return (f'stream={self.s.desc} family={self.family} cuts={self.cuts[:24]}'
@@ -930,6 +939,412 @@ async def invalid_case(case, r: R):
 
 
 # =============================================================================
+# every source class of bumble.transport.common (found at run time), in process
+# =============================================================================
+class _NullSnooper:
+    def snoop(self, packet, direction):
+        pass
+
+
+def source_classes():
+    """(name, class, how-it-takes-bytes) for every class defined in bumble.transport.common (nested
+    classes one level down included) and the module-level source classes of the transport modules
+    that import without hardware.  `how` is None for a class that looks like a source (BaseSource
+    subclass, or has a parser / feed_data / next_packet) but takes its bytes in a way this harness
+    does not know: those are listed in coverage.source_classes_undriven, never silently skipped."""
+    import importlib
+    import inspect
+    from bumble.transport import common
+
+    found = []
+    mods = [common]
+    for extra in ('bumble.transport.serial',):
+        try:
+            mods.append(importlib.import_module(extra))
+        except Exception:
+            pass
+    seen = set()
+    for mod in mods:
+        classes = []
+        for name, cls in sorted(vars(mod).items()):
+            if inspect.isclass(cls) and cls.__module__ == mod.__name__:
+                classes.append((name, cls))
+                for n2, c2 in sorted(vars(cls).items()):
+                    if inspect.isclass(c2) and c2.__module__ == mod.__name__:
+                        classes.append((f'{name}.{n2}', c2))
+        for name, cls in classes:
+            if cls in seen:
+                continue
+            seen.add(cls)
+            how = None
+            framer = False
+            if issubclass(cls, common.PacketParser):
+                how, framer = 'parser', True
+            elif issubclass(cls, common.PumpedPacketSource):
+                how, framer = 'pumped', True
+            elif issubclass(cls, common.ParserSource):
+                framer = True
+                if hasattr(cls, 'data_received'):
+                    how = 'data_received'
+                elif hasattr(cls, 'datagram_received'):
+                    how = 'datagram_received'
+                elif cls is common.ParserSource:
+                    how = 'parser-attr'
+            elif cls is common.PacketPump:
+                how, framer = 'pump', True
+            elif cls is common.PacketReader:
+                how, framer = 'reader', True
+            elif cls is common.AsyncPacketReader:
+                how, framer = 'areader', True
+            elif cls is getattr(common.SnoopingTransport, 'Source', None):
+                how, framer = 'snooping', True
+            elif any(hasattr(cls, a) for a in ('feed_data', 'next_packet', 'parser')) or \
+                    (issubclass(cls, common.BaseSource) and cls is not common.BaseSource):
+                framer = True
+            if framer:
+                found.append((name, cls, how))
+    return found
+
+
+class Driven:
+    """One instance of a source class, with `await feed(chunk)` returning after the chunk has been
+    fully processed (the exception that escaped, or None) and `out`, the packets its sink got."""
+
+    def __init__(self, name, cls, how):
+        from bumble.transport import common
+
+        self.name, self.how = name, how
+        self.out = []
+        self.sink = Forward(self.out)
+        self.task = None
+        self.src = None
+        self.parser = None
+        if how == 'parser':
+            self.parser = cls(self.sink)
+        elif how in ('parser-attr', 'data_received', 'datagram_received'):
+            self.src = cls()
+            self.src.set_packet_sink(self.sink)
+            self.parser = self.src.parser
+        elif how == 'pumped':
+            self.queue = asyncio.Queue()
+            self.src = cls(self.queue.get)
+            self.src.set_packet_sink(self.sink)
+            self.src.start()
+            self.parser = self.src.parser
+        elif how == 'pump':
+            self.sr = asyncio.StreamReader(limit=2 ** 20)
+            self.pump = cls(common.AsyncPacketReader(self.sr), self.sink)
+            self.task = asyncio.ensure_future(self.pump.run())
+        elif how == 'snooping':
+            self.inner = common.ParserSource()
+            self.src = cls(self.inner, _NullSnooper())
+            self.src.set_packet_sink(self.sink)
+            self.parser = self.inner.parser
+        else:
+            raise ValueError(how)
+
+    async def feed(self, ch):
+        how = self.how
+        try:
+            if how == 'parser':
+                self.parser.feed_data(ch)
+            elif how == 'parser-attr':
+                self.src.parser.feed_data(ch)
+            elif how == 'data_received':
+                self.src.data_received(ch)
+            elif how == 'datagram_received':
+                self.src.datagram_received(ch, ('127.0.0.1', 1))
+            elif how == 'snooping':
+                self.inner.parser.feed_data(ch)
+            elif how == 'pumped':
+                self.queue.put_nowait(ch)
+                for _ in range(12):
+                    await asyncio.sleep(0)
+                    if self.queue.empty() and _ >= 2:
+                        break
+                t = self.src.terminated
+                if t.done() and not t.cancelled() and t.exception() is not None:
+                    return t.exception()
+            elif how == 'pump':
+                self.sr.feed_data(ch)
+                for _ in range(4):
+                    await asyncio.sleep(0)
+        except Exception as e:  # noqa
+            return e
+        return None
+
+    async def close(self):
+        if self.how == 'pumped':
+            self.src.close()
+            for _ in range(3):
+                await asyncio.sleep(0)
+            t = self.src.terminated
+            if t.done() and not t.cancelled():
+                t.exception()
+        if self.task is not None:
+            self.task.cancel()
+            try:
+                await self.task
+            except BaseException:
+                pass
+
+
+async def drive_class(r: R, entry, s: Stream, family, cuts):
+    name, cls, how = entry
+    d = Driven(name, cls, how)
+    st = Steps(r, f'source/{name}', s, family, cuts)
+    fed = 0
+    try:
+        for ch in H.split_at(s.data, cuts):
+            e = await d.feed(ch)
+            if e is not None:
+                st.raised(e, fed, d.out, f'{name} ({how})')
+                return None
+            fed += len(ch)
+            r.ev('source_class_chunks')
+            if not st.after(fed, d.out):
+                return None
+        st.final(d.out)
+        return d.out
+    finally:
+        await d.close()
+
+
+async def sources_case(case, r: R):
+    rng = random.Random(case['seed'])
+    entries = source_classes()
+    driven = [e for e in entries if e[2] not in (None, 'reader', 'areader')]
+    for name, cls, how in entries:
+        if how is None:
+            r.ev('source_classes_undriven')
+            r.add_extra_list('source_classes_undriven', name)
+    r.extra.setdefault('source_classes_undriven', [])
+    r.extra['source_classes_driven'] = [f'{n} ({h})' for n, _c, h in entries if h is not None]
+    if case.get('census'):
+        r.ev('source_classes_found', len(entries))
+        r.ev('source_classes_driven', len([e for e in entries if e[2] is not None]))
+    last = None
+    for _ in range(case['streams']):
+        s = gen_stream(rng, nmax=5, small=rng.random() < 0.3)
+        fams = set()
+        n = 0
+        for family, cuts in chunkings(rng, s, all2_limit=case['all2'], one_limit=case['all2'], nrandom=3):
+            n += 1
+            for entry in driven:
+                out = await drive_class(r, entry, s, family, cuts)
+                r.ev('source_class_chunkings')
+                r.ev('source_chunkings_' + entry[0])
+            if family not in fams and nontrivial(s, cuts):
+                fams.add(family)
+                r.sig('sources', s.data[:2048], len(s.data), family)
+        r.evals(n)
+        last = s
+    r.sample = {'kind': 'sources', 'classes': [f'{n} ({h})' for n, _c, h in entries], 'stream': last.desc}
+
+
+# =============================================================================
+# several framers alive in one process: nothing one of them was told or fed may show in another
+# =============================================================================
+VENDOR_INFOS = ((1, 1, 'B'), (1, 0, 'B'), (1, 2, 'B'), (2, 2, 'H'), (2, 0, 'H'), (2, 1, 'H'))
+
+
+class XStream(Stream):
+    """A stream that may hold packets of a vendor type registered through extended_packet_info:
+    (length-size, length-offset, unpack-type) = `offset` octets, then the body length in `size`
+    octets little-endian, then the body; built by hand like everything else."""
+
+    __slots__ = ('hs',)
+
+    def __init__(self, packets, vendor=None):
+        self.packets = list(packets)
+        self.bounds = H.bounds_of(self.packets)
+        self.data = b''.join(self.packets)
+        self.types = [p[0] for p in self.packets]
+        self.typed = True
+        self.hs = []
+        self.desc = []
+        for p in self.packets:
+            if vendor is not None and p[0] == vendor[0]:
+                h = vendor[1][0] + vendor[1][1]
+                self.desc.append(('vendor', len(p) - 1 - h))
+            else:
+                h = H.header_size(p[0])
+                self.desc.append((H.NAME[p[0]], len(p) - 1 - h))
+            self.hs.append(h)
+
+    def cut_class(self, pos):
+        if pos == 0 or pos in set(self.bounds):
+            return 'at-boundary' if pos < len(self.data) else 'at-end'
+        i = bisect.bisect_right(self.bounds, pos)
+        if i >= len(self.packets):
+            return 'past-end'
+        off = pos - (self.bounds[i - 1] if i else 0)
+        return 'after-type' if off == 1 else 'in-header' if off < 1 + self.hs[i] else \
+            'after-header' if off == 1 + self.hs[i] else 'in-body'
+
+
+def vendor_packet(rng, t, info, body_len):
+    size, offset, _fmt = info
+    body = H.hostile_body(rng, body_len)[:body_len]
+    return bytes([t]) + rng.randbytes(offset) + len(body).to_bytes(size, 'little') + body
+
+
+ISOLATION_KINDS = (('PacketParser', 'parser'), ('ParserSource', 'parser-attr'),
+                   ('StreamPacketSource', 'data_received'), ('PumpedPacketSource', 'pumped'))
+
+
+async def isolation_round(r: R, rng):
+    from bumble import core
+    from bumble.transport import common
+
+    order = rng.choice(['owner-first', 'owner-last', 'register-late', 'register-late', 'no-extension'])
+    t = rng.choice([0x77, 0x06, 0x00, 0xFF, 0x10, 0x80, rng.randint(6, 255)])
+    info = rng.choice(VENDOR_INFOS)
+    nvict = rng.choice([1, 2, 2, 3])
+
+    def make(kind):
+        name, how = kind
+        return Driven(name, getattr(common, name), how)
+
+    insts = []           # dicts: d, role, stream, chunks [(bytes, is_bad)], step, fed, dead
+    owner = None
+    owner_kind = rng.choice(ISOLATION_KINDS[:3])
+
+    def new_owner():
+        d = make(owner_kind)
+        pk = []
+        for _ in range(rng.randint(2, 6)):
+            if order != 'no-extension' and rng.random() < 0.5:
+                maxb = 255 if info[0] == 1 else 600
+                pk.append(vendor_packet(rng, t, info, rng.choice([0, 1, 2, 5, 40, maxb])))
+            else:
+                pk.append(H.make_packet(rng, rng.choice(H.ALL_TYPES), rng.choice([0, 1, 3, 30, 255])))
+        s = XStream(pk, (t, info))
+        cuts = sorted(rng.randint(0, len(s.data)) for _ in range(rng.choice([1, 2, 4, 8])))
+        return {'d': d, 'role': 'owner', 'kind': owner_kind[0], 's': s, 'cuts': cuts,
+                'chunks': [(c, False) for c in H.split_at(s.data, cuts)],
+                'st': Steps(r, f'isolation/owner-{owner_kind[0]}', s, 'interleaved', cuts), 'fed': 0, 'dead': False}
+
+    def new_victim():
+        kind = rng.choice(ISOLATION_KINDS)
+        d = make(kind)
+        s = gen_stream(rng, nmax=5, small=rng.random() < 0.5)
+        k = rng.randint(0, len(s.packets))                 # packet boundary that gets the foreign type byte
+        b = 0 if k == 0 else s.bounds[k - 1]
+        cuts = sorted(set([b] + [rng.randint(0, len(s.data)) for _ in range(rng.choice([0, 1, 3, 6]))]))
+        chunks = []
+        prev = 0
+        for c in cuts + [len(s.data)]:
+            if prev == b and order != 'no-extension' and not any(bad for _c, bad in chunks):
+                chunks.append((bytes([t]), True))
+            if c > prev:
+                chunks.append((s.data[prev:c], False))
+            prev = c
+        if b == len(s.data) and order != 'no-extension' and not any(bad for _c, bad in chunks):
+            chunks.append((bytes([t]), True))
+        return {'d': d, 'role': 'victim', 'kind': kind[0], 's': s, 'cuts': cuts, 'chunks': chunks,
+                'st': Steps(r, f'isolation/{kind[0]}', s, 'interleaved', cuts), 'fed': 0, 'dead': False, 'k': k}
+
+    registered = False
+
+    def register():
+        nonlocal registered
+        if order != 'no-extension' and not registered:
+            owner['d'].parser.extended_packet_info[t] = info
+            registered = True
+            r.ev('isolation_extensions_registered')
+
+    if order == 'owner-first':
+        owner = new_owner()
+        register()
+        insts = [owner] + [new_victim() for _ in range(nvict)]
+    else:
+        insts = [new_victim() for _ in range(nvict)]
+        owner = new_owner()
+        insts.append(owner)
+        if order == 'owner-last':
+            register()
+    # interleave: every instance's chunks in its own order
+    idx = [0] * len(insts)
+    events = 0
+    late_at = rng.randint(1, 6)
+    try:
+        while True:
+            live = [j for j, x in enumerate(insts) if idx[j] < len(x['chunks']) and not x['dead']]
+            if not live:
+                break
+            j = rng.choice(live)
+            x = insts[j]
+            ch, bad = x['chunks'][idx[j]]
+            idx[j] += 1
+            events += 1
+            if order == 'register-late' and not registered:
+                needs = bad or (x['role'] == 'owner' and t in ch) or events >= late_at
+                if needs:
+                    register()
+            e = await x['d'].feed(ch)
+            r.ev('isolation_feeds')
+            ctx = (f'order={order} vendor type 0x{t:02x} info={info} registered on a {owner_kind[0]}; this is a '
+                   f'{x["kind"]} ({x["role"]}) with {len(insts) - 1} other framers alive; {x["st"].ctx()}')
+            if bad:
+                # a type byte only ANOTHER parser was told about: unrecognised here
+                r.ev('isolation_foreign_type_bytes')
+                r.ev('oracle_evals')
+                where = 'start' if x['k'] == 0 else 'end' if x['k'] == len(x['s'].packets) else 'middle'
+                if x['kind'] == 'StreamPacketSource':
+                    if e is not None:
+                        r.bad(f'isolation/StreamPacketSource/raised/{type(e).__name__}', f'{e!r}; {ctx}')
+                        x['dead'] = True
+                        continue
+                elif e is None:
+                    r.bad(f'isolation/{x["kind"]}/type-registered-on-another-parser-not-reported/{order}',
+                          f'the type byte fed at the {where} packet boundary was not reported as invalid; {ctx}')
+                    x['dead'] = True
+                    continue
+                elif not isinstance(e, core.InvalidPacketError):
+                    r.bad(f'isolation/{x["kind"]}/wrong-exception/{type(e).__name__}', f'{e!r}; {ctx}')
+                    x['dead'] = True
+                    continue
+                r.ev('isolation_foreign_type_reported')
+                if not x['st'].after(x['fed'], x['d'].out):
+                    x['dead'] = True
+                if x['kind'] == 'PumpedPacketSource':
+                    x['dead'] = True        # its pump ends with the error (terminated carries it): nothing more to judge
+                    x['pump_ended'] = True
+                continue
+            if e is not None:
+                x['st'].raised(e, x['fed'], x['d'].out, f'{x["kind"]} ({x["role"]})')
+                x['dead'] = True
+                continue
+            x['fed'] += len(ch)
+            if not x['st'].after(x['fed'], x['d'].out):
+                x['dead'] = True
+        for x in insts:
+            if not x['dead']:
+                x['st'].final(x['d'].out)
+            elif x.get('pump_ended') and not x['st'].failed:
+                r.ev('oracle_evals')
+                want = x['s'].packets[:H.complete_in_prefix(x['s'].bounds, x['fed'])]
+                if x['d'].out != want:
+                    r.bad('isolation/PumpedPacketSource/content-after-error', f'{len(x["d"].out)} packets for {len(want)}; {x["st"].ctx()}')
+    finally:
+        for x in insts:
+            await x['d'].close()
+    r.evals()
+    r.sig('isolation', order, t, info, tuple(x['kind'] for x in insts), insts[0]['s'].data[:256])
+    return {'kind': 'isolation', 'order': order, 'vendor_type': t, 'info': list(info),
+            'framers': [f'{x["kind"]}:{x["role"]}' for x in insts], 'owner_stream': owner['s'].desc}
+
+
+async def isolation_case(case, r: R):
+    rng = random.Random(case['seed'])
+    sample = None
+    for _ in range(case['rounds']):
+        sample = await isolation_round(r, rng)
+    r.sample = sample
+
+
+# =============================================================================
 # UsbPacketSource without hardware
 # =============================================================================
 class FakeTransfer:
@@ -1374,6 +1789,257 @@ async def server_case_async(case, r: R):
 
 
 # =============================================================================
+# client / datagram / tty transports against a raw local peer (real clock, counted events)
+# =============================================================================
+CLIENT_KINDS = ('ws-client', 'tcp-client', 'unix-client', 'udp', 'pty', 'file')
+SURVIVES_INVALID = ('tcp-client', 'unix-client', 'pty', 'file')     # built on StreamPacketSource
+
+
+class Unavailable(Exception):
+    """The operating system does not offer what this transport needs (no pty device)."""
+
+
+class Peer:
+    """The far end of one real bumble transport, played by hand: every `send(chunk)` hands the transport
+    exactly one WebSocket binary message / datagram / write, cut wherever the chunking says."""
+
+    def __init__(self, kind):
+        self.kind = kind
+        self.dir = None
+        self.server = None
+        self.transport = None
+        self.sink = Collect()
+        self.fds = []
+        self.writer = None
+
+    async def open(self):
+        kind = self.kind
+        if kind == 'ws-client':
+            import websockets.asyncio.server as wss
+            from bumble.transport.ws_client import open_ws_client_transport
+            conns = asyncio.Queue()
+
+            async def handler(conn):
+                conns.put_nowait(conn)
+                try:
+                    async for _ in conn:
+                        pass
+                except Exception:
+                    pass
+
+            self.server = await wss.serve(handler, '127.0.0.1', 0, compression=None)
+            port = self.server.sockets[0].getsockname()[1]
+            self.transport = await wall(open_ws_client_transport(f'ws://127.0.0.1:{port}'), 'ws-client open')
+            self.conn = await wall(conns.get(), 'ws-client accepted')
+        elif kind in ('tcp-client', 'unix-client'):
+            conns = asyncio.Queue()
+
+            async def accepted(reader, writer):
+                conns.put_nowait(writer)
+
+            if kind == 'tcp-client':
+                from bumble.transport.tcp_client import open_tcp_client_transport
+                self.server = await asyncio.start_server(accepted, '127.0.0.1', 0)
+                port = self.server.sockets[0].getsockname()[1]
+                self.transport = await wall(open_tcp_client_transport(f'127.0.0.1:{port}'), 'tcp-client open')
+            else:
+                from bumble.transport.unix import open_unix_client_transport
+                self.dir = tempfile.mkdtemp(prefix='c02-')
+                path = os.path.join(self.dir, 'peer.sock')
+                self.server = await asyncio.start_unix_server(accepted, path)
+                self.transport = await wall(open_unix_client_transport(path), 'unix-client open')
+            self.writer = await wall(conns.get(), f'{kind} accepted')
+        elif kind == 'udp':
+            from bumble.transport.udp import open_udp_transport
+            self.sock = socket.socket(socket.AF_INET, socket.SOCK_DGRAM)
+            self.sock.bind(('127.0.0.1', 0))
+            self.transport = await wall(open_udp_transport(f'127.0.0.1:0,127.0.0.1:{self.sock.getsockname()[1]}'), 'udp open')
+            self.dest = self.transport.sink.transport.get_extra_info('sockname')
+        elif kind in ('pty', 'file'):
+            import pty
+            import tty
+            if kind == 'pty':
+                from bumble.transport.pty import open_pty_transport
+                self.dir = tempfile.mkdtemp(prefix='c02-')
+                link = os.path.join(self.dir, 'tty')
+                try:
+                    self.transport = await wall(open_pty_transport(link), 'pty open')
+                except OSError as e:
+                    raise Unavailable(f'pty: {e}') from None
+                self.wfd = os.open(link, os.O_RDWR | os.O_NOCTTY)
+                self.fds.append(self.wfd)
+            else:
+                from bumble.transport.file import open_file_transport
+                try:
+                    primary, replica = pty.openpty()
+                except OSError as e:
+                    raise Unavailable(f'pty: {e}') from None
+                self.fds += [primary, replica]
+                tty.setraw(primary)
+                tty.setraw(replica)
+                self.transport = await wall(open_file_transport(os.ttyname(replica)), 'file open')
+                self.wfd = primary
+        else:
+            raise ValueError(kind)
+        self.transport.source.set_packet_sink(self.sink)
+
+    async def send(self, chunk):
+        kind = self.kind
+        if kind == 'ws-client':
+            await wall(self.conn.send(bytes(chunk)), 'ws send')
+        elif kind in ('tcp-client', 'unix-client'):
+            if chunk:
+                self.writer.write(chunk)
+                await wall(self.writer.drain(), 'drain')
+        elif kind == 'udp':
+            self.sock.sendto(chunk, self.dest)
+        else:
+            if chunk:
+                os.write(self.wfd, chunk)
+
+    async def close(self):
+        try:
+            if self.transport is not None:
+                try:
+                    await asyncio.wait_for(self.transport.close(), 5)
+                except Exception:
+                    pass
+            if self.writer is not None:
+                self.writer.close()
+            if self.server is not None:
+                self.server.close()
+                try:
+                    await asyncio.wait_for(self.server.wait_closed(), 5)
+                except Exception:
+                    pass
+            if self.kind == 'udp':
+                self.sock.close()
+            for fd in self.fds:
+                try:
+                    os.close(fd)
+                except OSError:
+                    pass
+        finally:
+            if self.dir:
+                shutil.rmtree(self.dir, ignore_errors=True)
+
+
+async def client_run(r: R, kind, rng, s: Stream, family, cuts, foreign):
+    """One transport instance, one chunking.  `foreign` = (type byte, info, when) of a vendor type that
+    a *different* source of this process registers, or None."""
+    from bumble.transport import common
+
+    sibling = None
+
+    def make_sibling():
+        sib = common.ParserSource()
+        sib.set_packet_sink(Collect())
+        sib.parser.extended_packet_info[foreign[0]] = foreign[1]
+        r.ev('client_siblings_with_extension')
+        return sib
+
+    if foreign and foreign[2] == 'before':
+        sibling = make_sibling()
+    peer = Peer(kind)
+    TAP['raised'] = None
+    try:
+        await peer.open()
+        if foreign and foreign[2] == 'after':
+            sibling = make_sibling()
+        st = Steps(r, f'transport/{kind}', s, family, cuts)
+        chunks = [(c, False) for c in H.split_at(s.data, cuts)]
+        if foreign and kind in SURVIVES_INVALID:
+            # the other source's type byte, alone in a write, at a packet boundary of this one's stream
+            k = rng.randint(0, len(s.packets))
+            b = 0 if k == 0 else s.bounds[k - 1]
+            pos, out = 0, []
+            done = False
+            for c, _ in chunks:
+                if not done and pos <= b <= pos + len(c):
+                    out += [(c[:b - pos], False), (bytes([foreign[0]]), True), (c[b - pos:], False)]
+                    done = True
+                else:
+                    out.append((c, False))
+                pos += len(c)
+            chunks = out
+        fed = 0
+        total = TAP['bytes']
+        for ch, bad in chunks:
+            await peer.send(ch)
+            total += len(ch)
+            await wait_tap(total, f'{kind}: bytes of one chunk at the parser')
+            r.ev(f'client_{kind}_chunks')
+            if bad:
+                r.ev('client_foreign_type_bytes')
+                r.ev('oracle_evals')
+                if TAP['raised'] is None:
+                    r.bad(f'transport/{kind}/type-registered-on-another-source-not-reported',
+                          f'type byte 0x{foreign[0]:02x} (extended_packet_info of a sibling ParserSource created {foreign[2]} '
+                          f'this transport) was not reported as invalid by this transport\'s parser; {st.ctx()}')
+                    return False
+                TAP['raised'] = None
+                continue
+            if TAP['raised'] is not None:
+                st.raised(TAP['raised'], fed, peer.sink.packets, f'{kind} transport parser')
+                TAP['raised'] = None
+                return False
+            fed += len(ch)
+            if not st.after(fed, peer.sink.packets):
+                return False
+        st.final(peer.sink.packets)
+        r.ev('client_packets_seen', len(peer.sink.packets))
+        return True
+    finally:
+        TAP['raised'] = None
+        await peer.close()
+        del sibling
+
+
+async def client_case_async(case, r: R):
+    rng = random.Random(case['seed'])
+    kind = case['transport']
+    install_tap()
+    try:
+        n = 0
+        s = None
+        for _ in range(case['streams']):
+            s = gen_stream(rng, nmax=4, small=rng.random() < 0.6)
+            if len(s.data) > 700:
+                s = short_stream(rng)
+            N = len(s.data)
+            fams = [('whole', []), ('per-packet', s.bounds[:-1]), ('bytewise', list(range(1, N)))] if N <= 64 else \
+                [('whole', []), ('per-packet', s.bounds[:-1])]
+            inside = [c for c in range(1, N) if c not in set(s.bounds)]
+            for c in rng.sample(inside, min(len(inside), case['splits'])):
+                fams.append(('all2', [c]))
+            for _ in range(2):
+                k = rng.choice([2, 3, 5, 9])
+                cuts = sorted(rng.randint(0, N) for _ in range(k))
+                fams.append(('random', cuts))
+            for family, cuts in fams:
+                foreign = None
+                if rng.random() < 0.5:
+                    foreign = (rng.choice([0x77, 0x06, 0x00, 0xFF, rng.randint(6, 255)]), rng.choice(VENDOR_INFOS),
+                               rng.choice(['before', 'after']))
+                try:
+                    await client_run(r, kind, rng, s, family, cuts, foreign)
+                except Unavailable as e:
+                    r.ev(f'client_{kind}_unavailable')
+                    r.add_extra_list('client_transports_unavailable', f'{kind}: {e}')
+                    r.sample = {'kind': 'client', 'transport': kind, 'unavailable': str(e)}
+                    return
+                r.ev(f'client_{kind}_chunkings')
+                r.evals()
+                n += 1
+                if nontrivial(s, cuts):
+                    r.sig('client', kind, s.data[:1024], family, tuple(cuts[:32]))
+        r.sample = {'kind': 'client', 'transport': kind, 'stream': s.desc, 'chunkings': n}
+    finally:
+        remove_tap()
+        TAP['event'] = None
+
+
+# =============================================================================
 # entry point
 # =============================================================================
 def run_case(case, r: R):
@@ -1384,8 +2050,13 @@ def run_case(case, r: R):
         TAP['bytes'] = 0
         asyncio.run(server_case_async(case, r))
         return
+    if kind == 'client':
+        TAP['bytes'] = 0
+        asyncio.run(client_case_async(case, r))
+        return
     coro = {'frame': frame_case, 'big': big_case, 'exhaust': exhaust_case,
-            'invalid': invalid_case, 'usbsrc': usbsrc_case}[kind](case, r)
+            'invalid': invalid_case, 'usbsrc': usbsrc_case, 'sources': sources_case,
+            'isolation': isolation_case}[kind](case, r)
     vloop.run(coro)
 
 
